@@ -16,7 +16,7 @@ from dataclasses import dataclass, field
 
 from .pkg import PKG
 
-LETTERS = ["pf", "qf", "pc", "qc", "en", "qe", "ex", "of"]
+LETTERS = ["pf", "qf", "pc", "qc", "en", "qe", "ex", "of", "gc"]
 INIT_LETTERS = ["", "ic", "if"]
 R_FORMS = ["none", "name", "alias", "priv_alias", "to_private", "star", "module", "module_alias", "abs_name", "abs_module_alias"]
 
@@ -91,6 +91,8 @@ def _module_source(T: str, letters) -> tuple[str, list[tuple]]:  # noqa: N803
         src.append("from enum import Enum\n")
     if "pc" in letters or "of" in letters:
         src.append("from typing import overload\n")
+    if "gc" in letters:
+        src.append(f"from typing import Generic, TypeVar\n\nTV{T} = TypeVar(\"TV{T}\")\n")
     for L in letters:  # noqa: N806
         if L == "pf":
             src.append(f"def pf{T}(a: int) -> int:\n    return a\n")
@@ -135,6 +137,16 @@ def _module_source(T: str, letters) -> tuple[str, list[tuple]]:  # noqa: N803
         elif L == "qe":
             src.append(f"class _Qe{T}(Enum):\n    QA{T} = 1\n")
             d += [("enum", f"_Qe{T}", (), L, False), ("enum_member", f"QA{T}", (f"_Qe{T}",), L, False)]
+        elif L == "gc":
+            # a generic class whose attributes / parameters / results have the type variable as type
+            src.append(
+                f"class Gc{T}(Generic[TV{T}]):\n    gv{T}: TV{T}\n    gl{T}: list[TV{T}] = []\n\n"
+                f"    def __init__(self, p: TV{T}) -> None:\n        self.gi{T}: TV{T} = p\n        self.gj{T} = p\n\n"
+                f"    def gm{T}(self, a: TV{T}) -> TV{T}:\n        return a\n",
+            )
+            c = (f"Gc{T}",)
+            d += [("class", f"Gc{T}", (), L, False), ("class_attr", f"gv{T}", c, L, False), ("class_attr", f"gl{T}", c, L, False), ("inst_attr", f"gi{T}", c, L, False),
+                  ("inst_attr", f"gj{T}", c, L, False), ("method", f"gm{T}", c, L, False)]
         elif L == "of":
             src.append(f"@overload\ndef of{T}(a: int) -> int: ...\n@overload\ndef of{T}(a: str) -> str: ...\ndef of{T}(a):\n    return a\n")
             d.append(("function", f"of{T}", (), L, False))
@@ -148,7 +160,7 @@ def _target(letters, T, private: bool) -> str | None:  # noqa: N803
     """The declaration a by-name re-export form names."""
     if private:
         return f"_Qc{T}" if "qc" in letters else (f"_qf{T}" if "qf" in letters else (f"_Qe{T}" if "qe" in letters else None))
-    return f"Pc{T}" if "pc" in letters else (f"pf{T}" if "pf" in letters else (f"En{T}" if "en" in letters else (f"Ex{T}" if "ex" in letters else (f"of{T}" if "of" in letters else None))))
+    return f"Pc{T}" if "pc" in letters else (f"pf{T}" if "pf" in letters else (f"En{T}" if "en" in letters else (f"Ex{T}" if "ex" in letters else (f"of{T}" if "of" in letters else (f"Gc{T}" if "gc" in letters else None)))))
 
 
 def build(spec: TreeSpec) -> TreeSpec | None:
